@@ -22,7 +22,8 @@ RULE = ("seeded random relational programs over t1,t2,t3(id,a,b,c): 1-3 sources 
         "ORDER BY, LIMIT/OFFSET, set operations built with the SQLite builder's defaults, correlated subqueries with the outer column "
         "on either side, window keys that carry aliases of their own, INSERT (values/select/replace), UPDATE (incl. UPDATE..FROM), DELETE, "
         "upsert; nesting depth <= 4; plus a fixed list of hand-written programs for each clause. non-trivial = at least 3 clauses or "
-        "one nested query; distinct = canonical program")
+        "one nested query; distinct = canonical program"
+        " also: ordered and cut IN-subqueries, aggregate-only selects with HAVING, FILTER with DISTINCT, row and step caps on the engine. (DESIGN.md 6a)")
 ASSUMPTIONS = [
     "identical EXPLAIN programs (opcode, p1-p5) are taken as equivalence on all data; otherwise equality on 6 (quick) / 24 (thorough) "
     "generated databases per program",
